@@ -904,7 +904,7 @@ def integer_binning(data: Optional[np.ndarray] = None, **kwargs) -> FixedWidthBi
     bin_width: Optional[int]
         group "bin_width" integers into one bin (not recommended)
     """
-    if "range" in kwargs:
+    if kwargs.get("range") is not None:
         kwargs["range"] = tuple(r - 0.5 for r in kwargs["range"])
     return fixed_width_binning(
         data=data,
